@@ -23,7 +23,7 @@ MIN_CASES = {"quick": 8000, "thorough": 30000}
 DEFECTS = ["unknown_module", "nonpositive_weight", "nonpositive_area", "soft_without_area", "hard_with_area", "hard_without_rectangles",
            "hard_overlapping_rectangles", "unknown_attribute", "invalid_name", "one_pin_net", "nonpositive_rectangle"]
 REQUIRED_CLASSES = ["wellformed"] + ["defect:" + d for d in DEFECTS]
-REQUIRED_COUNTERS = ["areas_compared", "centres_compared", "rectangle_lists_compared", "wire_lengths_compared", "defective_documents_judged"]
+REQUIRED_COUNTERS = ["entry:file", "entry:handle", "entry:tree", "entry:text_block", "entry:text_flow", "areas_compared", "centres_compared", "rectangle_lists_compared", "wire_lengths_compared", "defective_documents_judged"]
 
 
 def setup(ctx):
@@ -142,7 +142,7 @@ def inject(rng, doc, defect):
 
 def generate(rng, tier, i):
     doc = gn.gen_netlist_doc(rng)
-    via = rng.choice(["tree", "tree", "text_block", "text_flow"])
+    via = rng.choice(["tree", "tree", "text_block", "text_flow", "file", "handle"])
     if i % 3 == 0:
         return {"cls": "wellformed", "doc": doc, "via": via}
     defect = DEFECTS[(i // 3) % len(DEFECTS)]
@@ -202,7 +202,8 @@ def rel_close(a, b, rel=1e-9, abs_=0.0):
 def check(case, ctx):
     doc = case["doc"]
     src = doc if case["via"] == "tree" else gn.doc_text(doc, flow=(case["via"] == "text_flow"))
-    ok, n = ctx.call(nu.load, src, "tree")
+    ctx.count("entry:" + case["via"])
+    ok, n = ctx.call(nu.load, src, case["via"] if case["via"] in ("file", "handle") else "tree")
     if case["cls"] != "wellformed":
         ctx.count("defective_documents_judged")
         ctx.nontrivial(True)
